@@ -9,7 +9,7 @@ EXTENDS XtDetect, Json, IOUtils, TLCExt, FiniteSets
 
 Rec == ndJsonDeserialize(IOEnv.TRACE)
 
-AllDevs == {"yaml_positions_only"}
+AllDevs == {"yaml_positions_only", "buffered_detection_partial_output"}
 SplitNames(str) == {SubSeq(str, i, j) : i \in 1..Len(str), j \in 1..Len(str)}
 Devs == IF "XT_DEVS" \in DOMAIN IOEnv THEN AllDevs \cap SplitNames(IOEnv.XT_DEVS) ELSE {}
 
@@ -100,7 +100,9 @@ T_Transparent ==
   /\ Ev("transparent")
   /\ LET r == Rec[l] IN
      /\ (On("C09") /\ r.detected \in {"msgpack", "json", "yaml", "toml"}) =>
-          /\ r.none_res = r.some_res /\ r.same_out
+          /\ r.none_res = r.some_res
+          /\ \/ r.same_out
+             \/ (r.class = "buffered_detection_partial_output" /\ r.class \in Devs /\ PrintT(<<"DEVIATION", r.class, r.id>>))
           /\ \/ r.none_res = "ok" \/ r.same_msg
              \/ (r.class \in Devs /\ PrintT(<<"DEVIATION", r.class, r.id>>))
      /\ (On("C09") /\ r.detected = "none") => (r.none_res = "err" /\ r.undetectable_msg)
